@@ -1108,3 +1108,30 @@ Theorem adaptive_init : forall (fuel : nat) (c : bcfg) (stream : list byte) (sch
 Proof.
   intros fuel c stream schedule g st Hg. apply (adaptive fuel c stream). apply R_init. assumption.
 Qed.
+
+(* ================================================================== size_t( -1 ): the pointer wrap *)
+
+(* known finding: with amount = 2^64 - 1 (internal::everything) the wrapped test succeeds although
+   nothing is buffered, so require() returns at once and size() answers buffer_occupied() = 0 *)
+Lemma everything_wrap_refuted :
+  exists base cur e amount : N,
+    (base + e < 2 ^ 64)%N /\ (amount < 2 ^ 64)%N /\ (cur <= e)%N /\
+    early_return_wrapped base cur e amount = true /\ ~ (cur + amount <= e)%N.
+Proof.
+  exists 4096%N, 0%N, 0%N, (2 ^ 64 - 1)%N.
+  split; [vm_compute; reflexivity|]. split; [vm_compute; reflexivity|].
+  split; [vm_compute; discriminate|]. split; [vm_compute; reflexivity|].
+  vm_compute. intros H. apply H. reflexivity.
+Qed.
+
+(* without wrap-around the machine's test is the model's test *)
+Lemma everything_wrap_partial : forall base cur e amount : N,
+  (base + cur + amount < 2 ^ 64)%N ->
+  early_return_wrapped base cur e amount = (cur + amount <=? e)%N.
+Proof.
+  intros base cur e amount H. unfold early_return_wrapped.
+  rewrite N.mod_small by assumption.
+  destruct (cur + amount <=? e)%N eqn:E.
+  - apply N.leb_le in E. apply N.leb_le. lia.
+  - apply N.leb_gt in E. apply N.leb_gt. lia.
+Qed.
